@@ -17,6 +17,7 @@ package main
 import (
 	"bytes"
 	"encoding/hex"
+	"errors"
 	"fmt"
 	"math"
 	"os"
@@ -40,6 +41,7 @@ func init() { register("C16", runC16, replayC16) }
 
 type c16Cfg struct {
 	MaxDoc, MaxDepth, MaxObjects uint64 // 0 = library default
+	MaxRefs, MaxMarkers          uint64 // 0 = library default
 }
 
 func (k c16Cfg) config() *configuration.Configuration {
@@ -53,10 +55,21 @@ func (k c16Cfg) config() *configuration.Configuration {
 	if k.MaxObjects != 0 {
 		cfg.Rules.MaxObjectCount = k.MaxObjects
 	}
+	if k.MaxRefs != 0 {
+		cfg.Rules.MaxLocalReferenceCount = k.MaxRefs
+	}
+	if k.MaxMarkers != 0 {
+		cfg.Rules.MaxMarkerCount = k.MaxMarkers
+	}
 	return cfg
 }
 
-func (k c16Cfg) String() string { return fmt.Sprintf("%d/%d/%d", k.MaxDoc, k.MaxDepth, k.MaxObjects) }
+func (k c16Cfg) String() string {
+	if k.MaxRefs == 0 && k.MaxMarkers == 0 {
+		return fmt.Sprintf("%d/%d/%d", k.MaxDoc, k.MaxDepth, k.MaxObjects)
+	}
+	return fmt.Sprintf("%d/%d/%d/%d/%d", k.MaxDoc, k.MaxDepth, k.MaxObjects, k.MaxRefs, k.MaxMarkers)
+}
 
 func c16ParseCfg(s string) c16Cfg {
 	p := strings.Split(s, "/")
@@ -67,12 +80,13 @@ func c16ParseCfg(s string) c16Cfg {
 		v, _ := strconv.ParseUint(p[i], 10, 64)
 		return v
 	}
-	return c16Cfg{u(0), u(1), u(2)}
+	return c16Cfg{u(0), u(1), u(2), u(3), u(4)}
 }
 
 func (k c16Cfg) rulesCfg() RulesCfg {
 	r := k.config().Rules
-	return RulesCfg{MaxObjects: r.MaxObjectCount, MaxDepth: r.MaxContainerDepth, MaxArray: r.MaxArraySizeBytes, MaxIdent: r.MaxIdentifierLength, MaxRefs: r.MaxLocalReferenceCount}
+	return RulesCfg{MaxObjects: r.MaxObjectCount, MaxDepth: r.MaxContainerDepth, MaxArray: r.MaxArraySizeBytes, MaxIdent: r.MaxIdentifierLength, MaxRefs: r.MaxLocalReferenceCount,
+		MaxMarkers: r.MaxMarkerCount}
 }
 
 // ---------------------------------------------------------------------------
@@ -391,7 +405,11 @@ func (in *c16Inst) callInner(op c16Op) string {
 		rec := &Recorder{}
 		rcv := ce.NewRules(rec, in.cfg.config())
 		err := in.dec.DecodeDocument(cp(op.Doc), rcv)
-		return renderResult(evsString(rec.Evs), err, nil)
+		res := renderResult(evsString(rec.Evs), err, nil)
+		if err != nil && c16ErrHead(err) != "err" && strings.HasPrefix(res, "err|") {
+			res = c16ErrHead(err) + res[3:]
+		}
+		return res
 	case in.enc != nil:
 		var buf bytes.Buffer
 		in.enc.PrepareToEncode(&buf)
@@ -400,7 +418,7 @@ func (in *c16Inst) callInner(op c16Op) string {
 	case in.mar != nil:
 		doc, err := in.mar.MarshalToDocument(c16Values[op.Val]())
 		if err != nil {
-			return "err|" + hex.EncodeToString(doc)
+			return c16ErrHead(err) + "|" + hex.EncodeToString(doc)
 		}
 		return "ok|" + hex.EncodeToString(doc)
 	default:
@@ -417,9 +435,21 @@ func c16RenderValue(v interface{}, err error) (s string) {
 	}()
 	d := c16Render(reflect.ValueOf(v), 0)
 	if err != nil {
-		return "err|" + d
+		return c16ErrHead(err) + "|" + d
 	}
 	return "ok|" + d
+}
+
+// c16ErrHead is the part of a returned error that is compared: the library reported a problem
+// ("err"), or a fault of the Go runtime (nil dereference, index out of range, failed type
+// assertion ...: a runtime.Error value that the Marshal / Unmarshal recover handler passed on)
+// surfaced as the error ("err-runtime").  Never the text.
+func c16ErrHead(err error) string {
+	var rt runtime.Error
+	if errors.As(err, &rt) {
+		return "err-runtime"
+	}
+	return "err"
 }
 
 // c16Render prints a decoded value deterministically by reflection: map entries sorted by their
@@ -502,12 +532,32 @@ type c16Step struct {
 	Reused, Fresh string
 }
 
+// c16FreshCache (when set): answers of fresh instances, by kind, configuration and operation.  A
+// fresh instance is a function of exactly these; the directed families give the same operation to
+// thousands of fresh instances.
+var c16FreshCache map[string]string
+
+func c16Fresh(kind string, k c16Cfg, op c16Op) string {
+	if c16FreshCache == nil {
+		return c16New(kind, k).call(op)
+	}
+	key := kind + "|" + k.String() + "|" + op.text(kind)
+	if r, ok := c16FreshCache[key]; ok {
+		return r
+	}
+	r := c16New(kind, k).call(op)
+	if r != "hang" && r != "spin" {
+		c16FreshCache[key] = r
+	}
+	return r
+}
+
 // c16RunHistory drives one reused instance through ops and a fresh instance per op.
 func c16RunHistory(kind string, k c16Cfg, ops []c16Op) []c16Step {
 	in := c16New(kind, k)
 	out := make([]c16Step, 0, len(ops))
 	for _, op := range ops {
-		fresh := c16New(kind, k).call(op)
+		fresh := c16Fresh(kind, k, op)
 		reused := in.call(op)
 		out = append(out, c16Step{reused, fresh})
 		if reused == "hang" || reused == "spin" || fresh == "spin" {
@@ -532,6 +582,8 @@ func c16Class(st c16Step) string {
 		return "busy-loop"
 	case r == "panic" || f == "panic":
 		return "panic"
+	case strings.HasPrefix(r, "err") && strings.HasPrefix(f, "err") && head(r) != head(f):
+		return "error-kind-differs"
 	case head(r) != head(f):
 		return "verdict-differs"
 	default:
@@ -604,19 +656,33 @@ func c16Key(kind string, k c16Cfg, ops []c16Op, st c16Step) string {
 	key := "C16/" + kind + "/" + c16Class(st)
 	last := ops[len(ops)-1]
 	switch c16Family(kind) {
-	case "value":
-		for _, o := range ops[:len(ops)-1] {
-			if c16IsBad(o.Val, c16BadValues) {
-				return key + "/after-unsupported-type"
+	case "value", "unmarshal":
+		table, bad := c16Values, c16BadValues
+		if c16Family(kind) == "unmarshal" {
+			table, bad = c16Templates, c16BadTemplates
+		}
+		// a failed generation inside a CYCLE of types leaves the iterators / builders of the other types of
+		// the cycle in the session cache (they were completed while the failing one was in progress)
+		if cyc, _ := c16NameCycle(table, last.Val); cyc {
+			for _, o := range ops[:len(ops)-1] {
+				if cyc, unsupported := c16NameCycle(table, o.Val); cyc && unsupported {
+					return key + "/after-unsupported-type/in-type-cycle"
+				}
 			}
 		}
-	case "unmarshal":
 		for _, o := range ops[:len(ops)-1] {
-			if c16IsBad(o.Val, c16BadTemplates) {
+			if c16IsBad(o.Val, bad) {
 				return key + "/after-unsupported-type"
 			}
 		}
 	case "events":
+		if kind == "rules" {
+			for _, o := range ops[:len(ops)-1] {
+				if c16LeavesReferencePending(o.Evs) {
+					return key + "/after-pending-reference"
+				}
+			}
+		}
 		if kind != "rules" {
 			// was the diverging stream itself a complete valid document?
 			valid := "invalid-stream"
@@ -634,9 +700,44 @@ func c16Key(kind string, k c16Cfg, ops []c16Op, st c16Step) string {
 	return key
 }
 
+// c16NameCycle: is the static type graph of the named value / template cyclic, and does it reach an
+// unsupported kind (views of a graph root are judged by the root type)?
+func c16NameCycle(table map[string]func() interface{}, name string) (cyclic, unsupported bool) {
+	var t reflect.Type
+	if strings.HasPrefix(name, "g:") {
+		if i := strings.Index(name, "/"); i > 2 {
+			t = c16GraphRoots[name[2:i]]
+		}
+	} else if f, ok := table[name]; ok {
+		if v := f(); v != nil {
+			t = reflect.TypeOf(v)
+		}
+	}
+	if t == nil {
+		return false, false
+	}
+	return c16TypeCyclic(t, map[reflect.Type]bool{}), c16TypeUnsupported(t, map[reflect.Type]bool{}) || strings.HasPrefix(name, "g:GJ/")
+}
+
 func c16IsBad(name string, bad []string) bool {
 	for _, b := range bad {
 		if b == name {
+			return true
+		}
+	}
+	return false
+}
+
+// a local reference whose marker does not occur in the same stream
+func c16LeavesReferencePending(es []Ev) bool {
+	marked := map[string]bool{}
+	for _, e := range es {
+		if e.K == "mk" {
+			marked[string(e.Data)] = true
+		}
+	}
+	for _, e := range es {
+		if e.K == "ref" && !marked[string(e.Data)] {
 			return true
 		}
 	}
@@ -732,11 +833,19 @@ func c16EventHistory(c *Ctx, g *EvGen, n int) []c16Op {
 	ops := []c16Op{}
 	for i := 0; i < n; i++ {
 		es := g.Document()
-		switch c.Rng.Intn(6) {
+		switch c.Rng.Intn(7) {
 		case 0:
 			es = g.Mutate(es)
 		case 1, 2:
 			es = c16Abort(c, es)
+		case 3: // drop the markers: the references stay unresolved (the generator reuses its identifiers from document to document)
+			kept := []Ev{}
+			for _, e := range es {
+				if e.K != "mk" {
+					kept = append(kept, e)
+				}
+			}
+			es = kept
 		}
 		ops = append(ops, c16Op{Evs: es})
 	}
@@ -856,7 +965,7 @@ func c16Pick(c *Ctx, good, bad []string, pBad int) string {
 }
 
 func runC16(c *Ctx) {
-	c.Rep.Rule = "histories of 2..8 operations on ONE instance per kind (rules validator with Reset; CBE / CTE / universal decoder; CBE / CTE encoder with PrepareToEncode; CBE / CTE marshaler; CBE / CTE unmarshaler), every operation also given to a freshly created instance of the same configuration and the two answers compared (forwarded events / output bytes / decoded value rendered by reflection / error-or-not / hang, watchdog on blocked goroutines); operations: generated valid event streams and documents, mutants, streams aborted after a container or array begin, streams without begin-document, values and templates of unsupported Go types (chan, func, complex, unsafe.Pointer, structs / slices / maps / interfaces holding them) mixed with supported ones, documents near small MaxDocumentSizeBytes / MaxContainerDepth / MaxObjectCount limits incl. documents that fit one by one while their sizes add up beyond the limit; non-trivial = history of at least 2 operations; distinct by (kind, limits, history text)"
+	c.Rep.Rule = "histories of 2..8 operations on ONE instance per kind (rules validator with Reset; CBE / CTE / universal decoder; CBE / CTE encoder with PrepareToEncode; CBE / CTE marshaler; CBE / CTE unmarshaler), every operation also given to a freshly created instance of the same configuration and the two answers compared (forwarded events / output bytes / decoded value rendered by reflection / error-or-not / hang, watchdog on blocked goroutines); operations: generated valid event streams and documents, mutants, streams aborted after a container or array begin, streams without begin-document, values and templates of unsupported Go types (chan, func, complex, unsafe.Pointer, structs / slices / maps / interfaces holding them) mixed with supported ones, documents near small MaxDocumentSizeBytes / MaxContainerDepth / MaxObjectCount limits incl. documents that fit one by one while their sizes add up beyond the limit; directed families: (S) first documents that FAIL or are abandoned with per-document state populated (pending forward reference with / without markers, markers, record types, open containers with a consumed map key, array chunk in progress incl. cut inside a UTF-8 sequence, array begun, marker pending; endings: stop, early end-of-document, proper end, too many ends, duplicate marker, null key, chunk without array, invalid UTF-8, undeclared record) crossed with later documents that use the SAME identifiers and read that state, under default limits and under small depth / object / reference / marker limits with documents on both sides of each limit, as event streams (validator, encoders) and as the CBE / CTE documents they encode to (decoders, unmarshalers); (B) documents abandoned at every byte position, with trailing bytes or over the limit, then documents of exactly limit-1 / limit / limit+1 bytes for several MaxDocumentSizeBytes; (G) self-referential and mutually recursive Go types reaching an unsupported kind, entered through different views (value, pointer, slice, map, interface, pointer to pointer ...) in every order, as marshaled values and as unmarshal templates; the error of a call is compared as none / reported / Go runtime fault; non-trivial = history of at least 2 operations; distinct by (kind, limits, history text)"
 	g := NewEvGen(c.Rng, c16GenOpts())
 	only := os.Getenv("C16_ONLY")
 	t0 := time.Now()
@@ -933,6 +1042,15 @@ func runC16(c *Ctx) {
 		}
 	}
 
+	// 0c. directed families: state left by a failed document x documents sensitive to it; byte counters and
+	// size limits after abandoned documents; type graphs entered through different views
+	c16RunStateFamily(c, only, record)
+	lap("state family")
+	c16RunSizeFamily(c, only, record)
+	lap("size family")
+	c16RunGraphFamily(c, only, record)
+	lap("graph family")
+
 	// 1. event-driven instances
 	for _, kind := range []string{"rules", "cbe-encoder", "cte-encoder"} {
 		if only != "" && only != kind {
@@ -942,7 +1060,7 @@ func runC16(c *Ctx) {
 		for i := 0; i < c.Pick(60, 1500); i++ {
 			k := c16Cfg{}
 			if kind == "rules" && c.Rng.Intn(3) == 0 {
-				k = c16Cfg{0, uint64(1 + c.Rng.Intn(3)), uint64(3 + c.Rng.Intn(10))}
+				k = c16Cfg{MaxDepth: uint64(1 + c.Rng.Intn(3)), MaxObjects: uint64(3 + c.Rng.Intn(10))}
 			}
 			ops := c16EventHistory(c, g, 2+c.Rng.Intn(5))
 			steps := c16Check(c, kind, k, ops, "generated")
@@ -1111,7 +1229,7 @@ func runC16(c *Ctx) {
 
 func (c *Ctx) c16Cases() *caseFile {
 	cf := c.Cases("reuse", "CE.Model.Reuse CE.Model.Rules", "reuse_case", "reuse_case_ok")
-	cf.perFile = 40
+	cf.perFile = 80
 	return cf
 }
 
@@ -1478,4 +1596,911 @@ func c16ObsHead(s string) string {
 		return s[:i]
 	}
 	return s
+}
+
+// ===========================================================================
+// Directed family S: state left behind by a document that FAILED (or was
+// abandoned), crossed with documents that are sensitive to that state.
+//
+// A first document is composed of
+//   - what it populates:  any subset of { a reference to "a" that is pending (no marker "a" before it),
+//     a marker "a", a marker "b", a record type "R" (declared and used) }; "a" after the
+//     reference resolves it, so the subsets cover: references pending without any marker,
+//     pending beside an unrelated marker, resolved, markers only, nothing;
+//   - what it leaves open: nothing / containers with a map key consumed / an array chunk in
+//     progress (binary, and text cut inside a UTF-8 sequence) / an array begun without chunk /
+//     a marker waiting for its object;
+//   - how it ends: the stream just stops / end-of-document right there / containers closed and
+//     end-of-document (fails only when a reference is pending) / one of the events the validator
+//     rejects (too many container ends, duplicate marker, null map key, chunk without array,
+//     invalid UTF-8, record of an undeclared type).
+// The later documents use THE SAME identifiers (a, b, c, R) and the same map key.
+
+type c16Named struct {
+	Tag string
+	Evs []Ev
+}
+
+func c16Evs(text string) []Ev {
+	es, err := parseEvs(text)
+	if err != nil {
+		panic("c16: bad directed stream: " + err.Error())
+	}
+	return es
+}
+
+var c16StateAtoms = []struct{ Name, Top, Body string }{
+	{"fwd", "", " ref:61"},
+	{"mkA", "", " mk:61 pi:2"},
+	{"mkB", "", " mk:62 pi:1"},
+	{"rt", " rt:52 pi:7 e", " rec:52 pi:3 e"},
+}
+
+func c16StateOpen() []struct{ Name, Evs string } {
+	u8, str := int(events.ArrayTypeUint8), int(events.ArrayTypeString)
+	return []struct{ Name, Evs string }{
+		{"none", ""},
+		{"containers", " l m pi:1"},
+		{"chunk", fmt.Sprintf(" ab:%d ac:4:true ad:0102", u8)},
+		{"utf8-chunk", fmt.Sprintf(" ab:%d ac:4:true ad:61e2", str)},
+		{"array-begun", fmt.Sprintf(" ab:%d", u8)},
+		{"marker-pending", " mk:63"},
+	}
+}
+
+func c16StateEndings(open string) []struct{ Name, Evs string } {
+	str := int(events.ArrayTypeString)
+	if open != "none" {
+		return []struct{ Name, Evs string }{{"abort", ""}, {"end-document", " ed"}}
+	}
+	return []struct{ Name, Evs string }{
+		{"abort", ""}, {"closed", " e ed"}, {"end-document", " ed"}, {"too-many-ends", " e e e"},
+		{"duplicate-marker", " mk:7a pi:1 mk:7a pi:2"}, {"null-key", " m null"}, {"chunk-without-array", " ac:1:false ad:00"},
+		{"bad-utf8", fmt.Sprintf(" ab:%d ac:1:false ad:ff", str)}, {"undeclared-record", " rec:51 pi:1 e"},
+	}
+}
+
+// c16StateFirsts enumerates the first documents.  all=false (quick tier): every subset x nothing
+// open x every ending, and for the open states every (open, ending) with the "pending reference
+// only" subset plus `sample` further subsets chosen by pick.
+func c16StateFirsts(all bool, sample int, pick func(n int) int) []c16Named {
+	out := []c16Named{}
+	nSub := 1 << uint(len(c16StateAtoms))
+	for _, op := range c16StateOpen() {
+		for _, en := range c16StateEndings(op.Name) {
+			subs := map[int]bool{}
+			if all || op.Name == "none" {
+				for m := 0; m < nSub; m++ {
+					subs[m] = true
+				}
+			} else {
+				subs[1] = true // pending reference, no marker
+				for i := 0; i < sample; i++ {
+					subs[pick(nSub)] = true
+				}
+			}
+			for m := 0; m < nSub; m++ {
+				if !subs[m] {
+					continue
+				}
+				top, body, names := "", "", []string{}
+				for i, a := range c16StateAtoms {
+					if m&(1<<uint(i)) != 0 {
+						top += a.Top
+						body += a.Body
+						names = append(names, a.Name)
+					}
+				}
+				out = append(out, c16Named{Tag: "{" + strings.Join(names, ",") + "}/" + op.Name + "/" + en.Name,
+					Evs: c16Evs("bd v:0" + top + " l" + body + op.Evs + en.Evs)})
+			}
+		}
+	}
+	return out
+}
+
+// documents that read per-document state (same identifiers as the first documents)
+func c16StateLaters() []c16Named {
+	u8, str := int(events.ArrayTypeUint8), int(events.ArrayTypeString)
+	mk := func(tag, text string) c16Named { return c16Named{tag, c16Evs(text)} }
+	return []c16Named{
+		mk("plain", "bd v:0 l pi:1 e ed"),
+		mk("scalar", "bd v:0 pi:1 ed"),
+		mk("marker-a-then-reference", "bd v:0 l mk:61 pi:1 ref:61 e ed"),
+		mk("reference-a-then-marker", "bd v:0 l ref:61 mk:61 pi:1 e ed"),
+		mk("reference-a-unresolved", "bd v:0 l ref:61 e ed"),
+		mk("reference-b-unresolved", "bd v:0 l ref:62 pi:1 e ed"),
+		mk("markers-b-c", "bd v:0 l mk:62 pi:1 mk:63 pi:2 e ed"),
+		mk("marker-a-on-list", "bd v:0 mk:61 l ref:61 e ed"),
+		mk("record-type-R-declared", "bd v:0 rt:52 pi:7 e l rec:52 pi:1 e e ed"),
+		mk("record-R-undeclared", "bd v:0 l rec:52 pi:1 e e ed"),
+		mk("chunk-without-array", "bd v:0 l ac:2:false ad:0102 e ed"),
+		mk("data-without-chunk", "bd v:0 l ad:0304 e ed"),
+		mk("utf8-continuation-first", fmt.Sprintf("bd v:0 ab:%d ac:2:false ad:82ac ed", str)),
+		mk("array", fmt.Sprintf("bd v:0 l ab:%d ac:2:false ad:0102 e ed", u8)),
+		mk("map-key-1", "bd v:0 m pi:1 pi:2 e ed"),
+		mk("end-container-first", "bd v:0 e ed"),
+	}
+}
+
+// first documents that use up the counters the limits are checked against, and later documents on
+// both sides of every limit of c16SmallLimits (nesting depth, object count, references, markers)
+var c16SmallLimits = c16Cfg{MaxDepth: 2, MaxObjects: 6, MaxRefs: 2, MaxMarkers: 2}
+
+func c16CounterFirsts() []c16Named {
+	mk := func(tag, text string) c16Named { return c16Named{tag, c16Evs(text)} }
+	out := []c16Named{}
+	for d := 1; d <= 4; d++ {
+		out = append(out, mk(fmt.Sprintf("depth-%d/abort", d), "bd v:0"+strings.Repeat(" l", d)))
+	}
+	for n := 2; n <= 8; n += 2 {
+		out = append(out, mk(fmt.Sprintf("objects-%d/abort", n), "bd v:0 l"+strings.Repeat(" pi:1", n)))
+		out = append(out, mk(fmt.Sprintf("objects-%d/end-document", n), "bd v:0 l"+strings.Repeat(" pi:1", n)+" ed"))
+	}
+	for r := 1; r <= 3; r++ {
+		out = append(out, mk(fmt.Sprintf("references-%d/abort", r), "bd v:0 l mk:61 pi:1"+strings.Repeat(" ref:61", r)))
+		out = append(out, mk(fmt.Sprintf("pending-references-%d/closed", r), "bd v:0 l"+strings.Repeat(" ref:61", r)+" e ed"))
+		ms := ""
+		for i := 0; i < r; i++ {
+			ms += fmt.Sprintf(" mk:%02x pi:1", 0x61+i)
+		}
+		out = append(out, mk(fmt.Sprintf("markers-%d/abort", r), "bd v:0 l"+ms))
+	}
+	return out
+}
+
+func c16CounterLaters() []c16Named {
+	mk := func(tag, text string) c16Named { return c16Named{tag, c16Evs(text)} }
+	out := []c16Named{}
+	for d := 1; d <= 3; d++ {
+		out = append(out, mk(fmt.Sprintf("depth-%d", d), "bd v:0"+strings.Repeat(" l", d)+strings.Repeat(" e", d)+" ed"))
+	}
+	for n := 4; n <= 7; n++ {
+		out = append(out, mk(fmt.Sprintf("objects-%d", n), "bd v:0 l"+strings.Repeat(" pi:1", n)+" e ed"))
+	}
+	for r := 1; r <= 3; r++ {
+		out = append(out, mk(fmt.Sprintf("references-%d", r), "bd v:0 l mk:61 pi:1"+strings.Repeat(" ref:61", r)+" e ed"))
+		ms := ""
+		for i := 0; i < r; i++ {
+			ms += fmt.Sprintf(" mk:%02x pi:1", 0x61+i)
+		}
+		out = append(out, mk(fmt.Sprintf("markers-%d", r), "bd v:0 l"+ms+" e ed"))
+	}
+	return out
+}
+
+// F L1 F L2 ... : every later document right after the first one
+func c16Interleave(first c16Op, laters []c16Op) []c16Op {
+	ops := make([]c16Op, 0, 2*len(laters))
+	for _, l := range laters {
+		ops = append(ops, first, l)
+	}
+	return ops
+}
+
+// the document a (possibly invalid / unfinished) event stream encodes to: whatever the encoder
+// wrote before it refused an event
+func c16DocOf(format string, es []Ev) []byte {
+	var enc ce.Encoder
+	if format == "cbe" {
+		enc = ce.NewCBEEncoder(configuration.New())
+	} else {
+		enc = ce.NewCTEEncoder(configuration.New())
+	}
+	_, out := c16EncodeObserved(enc, es)
+	return out
+}
+
+// a valid CBE / CTE document of exactly n bytes (n >= 6): a list of one-digit integers
+func c16SizedDoc(format string, n int) []byte {
+	if format == "cbe" { // 81 00 9a <n-4 small ints> 9b
+		return append(append([]byte{0x81, 0, 0x9a}, bytes.Repeat([]byte{1}, n-4)...), 0x9b)
+	}
+	// "c0 [" + "1 1 1" + "]" : 5 + (2k-1) bytes for k items; one more space before ] when n is odd
+	k := (n - 4) / 2
+	body := strings.TrimSuffix(strings.Repeat("1 ", k), " ")
+	if (n-4)%2 == 1 {
+		body += " "
+	}
+	return []byte("c0 [" + body + "]")
+}
+
+func c16DocFormat(kind string) string {
+	if strings.HasPrefix(kind, "cte") {
+		return "cte"
+	}
+	return "cbe"
+}
+
+// ===========================================================================
+// Directed family G: type graphs for the per-session type caches.  A root type reaches an
+// unsupported kind; the views of a root are the Go values / templates through which a call can
+// enter the graph (by value, through a pointer, a slice, a map, an interface ...).  A failed
+// generation for one view leaves entries of OTHER types of the graph behind (generated while the
+// failing one was in progress); the next call enters through one of them.
+
+type c16GA struct { // pointer to self declared BEFORE the unsupported field
+	V    int
+	Next *c16GA
+	Bad  chan int
+}
+type c16GB struct { // unsupported field first
+	Bad  chan int
+	V    int
+	Next *c16GB
+}
+type c16GC struct { // cycle through a slice of values
+	V    int
+	Kids []c16GC
+	Bad  func()
+}
+type c16GD struct { // cycle through a slice of pointers and a map
+	V    int
+	Kids []*c16GD
+	M    map[string]*c16GD
+	Bad  complex128
+}
+type c16GE struct { // mutual recursion, unsupported kind at the far end
+	V int
+	F *c16GF
+}
+type c16GF struct {
+	E    *c16GE
+	Back []*c16GE
+	Bad  unsafe.Pointer
+}
+type c16GG struct { // cycle of three, unsupported kind in the middle
+	H *c16GH
+}
+type c16GH struct {
+	I   *c16GI
+	Bad chan int
+	G   *c16GG
+}
+type c16GI struct {
+	G *c16GG
+	H *c16GH
+}
+type c16GJ struct { // every static type supported; the interface field holds a channel at run time
+	V    int
+	Next *c16GJ
+	Bad  interface{}
+}
+type c16GK struct { // cycle through an array of pointers
+	Arr [2]*c16GK
+	Bad chan int
+}
+type c16GL struct { // cycle through a map value and a pointer to pointer
+	M   map[string]c16GL
+	PP  **c16GL
+	Bad complex64
+}
+type c16GOK struct { // supported cycle (control)
+	V    int
+	Next *c16GOK
+	Kids []*c16GOK
+}
+type c16GOuter struct { // supported wrapper around unsupported cycles
+	OK *c16GOK
+	A  *c16GA
+	E  []*c16GE
+}
+type c16GN1 struct { // no cycle: unsupported kind behind a pointer
+	V int
+	P *c16BadS
+}
+type c16GN2 struct { // no cycle: behind a slice of values
+	L []c16BadS
+	V int
+}
+type c16GN3 struct { // no cycle: supported indirections first
+	M  map[string]*c16S1
+	PP **c16S1
+	B  c16BadS
+}
+
+var c16GraphRoots = map[string]reflect.Type{
+	"GA": reflect.TypeOf(c16GA{}), "GB": reflect.TypeOf(c16GB{}), "GC": reflect.TypeOf(c16GC{}), "GD": reflect.TypeOf(c16GD{}),
+	"GE": reflect.TypeOf(c16GE{}), "GF": reflect.TypeOf(c16GF{}), "GG": reflect.TypeOf(c16GG{}), "GH": reflect.TypeOf(c16GH{}),
+	"GI": reflect.TypeOf(c16GI{}), "GJ": reflect.TypeOf(c16GJ{}), "GK": reflect.TypeOf(c16GK{}), "GL": reflect.TypeOf(c16GL{}),
+	"GOK": reflect.TypeOf(c16GOK{}), "GOuter": reflect.TypeOf(c16GOuter{}),
+	"GN1": reflect.TypeOf(c16GN1{}), "GN2": reflect.TypeOf(c16GN2{}), "GN3": reflect.TypeOf(c16GN3{}),
+}
+var c16GraphRootNames = []string{"GA", "GB", "GC", "GD", "GE", "GF", "GG", "GH", "GI", "GJ", "GK", "GL", "GN1", "GN2", "GN3", "GOK", "GOuter"}
+
+// val0 T{}   val2 T filled two levels deep   ptr0 &T{}   ptr2 &T filled   sliceptr []*T{&T{}}   ifacelist []interface{}{&T{}}
+// nilptr (*T)(nil)   map map[string]*T{"k": &T{}}   sliceval []T{T filled one level}   emptyslice []*T{}   ptrptr **T   wrap struct{ P *T }
+var c16GraphCoreViews = []string{"val0", "val2", "ptr0", "ptr2", "sliceptr", "ifacelist"}
+var c16GraphViews = append(append([]string{}, c16GraphCoreViews...), "nilptr", "map", "sliceval", "emptyslice", "ptrptr", "wrap")
+
+// c16Fill builds a value of type t whose pointers / slices / maps are non-nil down to `depth`
+// levels of indirection.  Interface fields named Bad hold a channel.
+func c16Fill(t reflect.Type, depth int, fieldName string) reflect.Value {
+	v := reflect.New(t).Elem()
+	switch t.Kind() {
+	case reflect.Ptr:
+		if depth > 0 {
+			p := reflect.New(t.Elem())
+			p.Elem().Set(c16Fill(t.Elem(), depth-1, ""))
+			v.Set(p)
+		}
+	case reflect.Slice:
+		if depth > 0 {
+			v.Set(reflect.Append(v, c16Fill(t.Elem(), depth-1, "")))
+		}
+	case reflect.Array:
+		for i := 0; i < t.Len(); i++ {
+			v.Index(i).Set(c16Fill(t.Elem(), depth, ""))
+		}
+	case reflect.Map:
+		if depth > 0 && t.Key().Kind() == reflect.String {
+			m := reflect.MakeMap(t)
+			m.SetMapIndex(reflect.ValueOf("k").Convert(t.Key()), c16Fill(t.Elem(), depth-1, ""))
+			v.Set(m)
+		}
+	case reflect.Struct:
+		for i := 0; i < t.NumField(); i++ {
+			if t.Field(i).PkgPath == "" {
+				v.Field(i).Set(c16Fill(t.Field(i).Type, depth, t.Field(i).Name))
+			}
+		}
+	case reflect.Interface:
+		if depth > 0 && fieldName == "Bad" {
+			v.Set(reflect.ValueOf(make(chan int)))
+		}
+	case reflect.Int, reflect.Int8, reflect.Int16, reflect.Int32, reflect.Int64:
+		v.SetInt(1)
+	case reflect.String:
+		v.SetString("s")
+	}
+	return v
+}
+
+func c16GraphValue(root, view string) interface{} {
+	t := c16GraphRoots[root]
+	pt := reflect.PtrTo(t)
+	switch view {
+	case "val0":
+		return c16Fill(t, 0, "").Interface()
+	case "val2":
+		return c16Fill(t, 2, "").Interface()
+	case "ptr0":
+		return c16Fill(pt, 1, "").Interface()
+	case "ptr2":
+		return c16Fill(pt, 3, "").Interface()
+	case "nilptr":
+		return reflect.Zero(pt).Interface()
+	case "sliceptr":
+		return c16Fill(reflect.SliceOf(pt), 2, "").Interface()
+	case "sliceval":
+		return c16Fill(reflect.SliceOf(t), 2, "").Interface()
+	case "emptyslice":
+		return reflect.MakeSlice(reflect.SliceOf(pt), 0, 0).Interface()
+	case "map":
+		return c16Fill(reflect.MapOf(reflect.TypeOf(""), pt), 2, "").Interface()
+	case "ptrptr":
+		p := c16Fill(pt, 1, "")
+		q := reflect.New(pt)
+		q.Elem().Set(p)
+		return q.Interface()
+	case "ifacelist":
+		return []interface{}{c16Fill(pt, 1, "").Interface()}
+	case "wrap":
+		st := reflect.StructOf([]reflect.StructField{{Name: "P", Type: pt}})
+		return c16Fill(st, 1, "").Interface()
+	}
+	panic("c16: unknown view " + view)
+}
+
+func c16GraphName(root, view string) string { return "g:" + root + "/" + view }
+
+// does the static type graph of t reach an unsupported kind?
+func c16TypeUnsupported(t reflect.Type, seen map[reflect.Type]bool) bool {
+	if seen[t] {
+		return false
+	}
+	seen[t] = true
+	switch t.Kind() {
+	case reflect.Chan, reflect.Func, reflect.Complex64, reflect.Complex128, reflect.UnsafePointer, reflect.Uintptr:
+		return true
+	case reflect.Ptr, reflect.Slice, reflect.Array:
+		return c16TypeUnsupported(t.Elem(), seen)
+	case reflect.Map:
+		return c16TypeUnsupported(t.Key(), seen) || c16TypeUnsupported(t.Elem(), seen)
+	case reflect.Struct:
+		for i := 0; i < t.NumField(); i++ {
+			if t.Field(i).PkgPath == "" && c16TypeUnsupported(t.Field(i).Type, seen) {
+				return true
+			}
+		}
+	}
+	return false
+}
+
+// does the static type graph of t contain a cycle?
+func c16TypeCyclic(t reflect.Type, path map[reflect.Type]bool) bool {
+	if path[t] {
+		return true
+	}
+	path[t] = true
+	defer delete(path, t)
+	switch t.Kind() {
+	case reflect.Ptr, reflect.Slice, reflect.Array:
+		return c16TypeCyclic(t.Elem(), path)
+	case reflect.Map:
+		return c16TypeCyclic(t.Key(), path) || c16TypeCyclic(t.Elem(), path)
+	case reflect.Struct:
+		for i := 0; i < t.NumField(); i++ {
+			if t.Field(i).PkgPath == "" && c16TypeCyclic(t.Field(i).Type, path) {
+				return true
+			}
+		}
+	}
+	return false
+}
+
+func init() {
+	for _, root := range c16GraphRootNames {
+		bad := c16TypeUnsupported(c16GraphRoots[root], map[reflect.Type]bool{}) || root == "GJ"
+		for _, view := range c16GraphViews {
+			root, view := root, view
+			name := c16GraphName(root, view)
+			c16Values[name] = func() interface{} { return c16GraphValue(root, view) }
+			c16Templates[name] = c16Values[name]
+			if bad {
+				c16BadValues = append(c16BadValues, name)
+				c16BadTemplates = append(c16BadTemplates, name)
+			}
+		}
+	}
+}
+
+// The model's [ty] of a value of an ACYCLIC type graph, computed by reflection (marshaler side:
+// what the iterator generator asks the cache for, and which parts this value reaches).  Named
+// types by number; slices / arrays / pointers one component (the element type), maps two.
+var c16TyNames = map[reflect.Type]int{}
+
+func c16TyName(t reflect.Type) int {
+	n, ok := c16TyNames[t]
+	if !ok {
+		n = 1000 + len(c16TyNames)
+		c16TyNames[t] = n
+	}
+	return n
+}
+
+func c16TyOf(v reflect.Value) string {
+	t := v.Type()
+	flag := func(reach bool, s string) string {
+		if reach {
+			return c16R(s)
+		}
+		return c16U(s)
+	}
+	switch t.Kind() {
+	case reflect.Chan, reflect.Func, reflect.Complex64, reflect.Complex128, reflect.UnsafePointer, reflect.Uintptr:
+		return fmt.Sprintf("(TBad %d)", c16TyName(t))
+	case reflect.Interface:
+		if v.IsNil() {
+			return c16Dy("(TLeaf 0)")
+		}
+		return c16Dy(c16TyOf(v.Elem()))
+	case reflect.Ptr:
+		if v.IsNil() {
+			return c16TComp(c16TyName(t), flag(false, c16TyOf(reflect.Zero(t.Elem()))))
+		}
+		return c16TComp(c16TyName(t), flag(true, c16TyOf(v.Elem())))
+	case reflect.Slice, reflect.Array:
+		if v.Len() == 0 {
+			return c16TComp(c16TyName(t), flag(false, c16TyOf(reflect.Zero(t.Elem()))))
+		}
+		return c16TComp(c16TyName(t), flag(true, c16TyOf(v.Index(0))))
+	case reflect.Map:
+		if v.Len() == 0 {
+			return c16TComp(c16TyName(t), flag(false, c16TyOf(reflect.Zero(t.Key()))), flag(false, c16TyOf(reflect.Zero(t.Elem()))))
+		}
+		k := v.MapKeys()[0]
+		return c16TComp(c16TyName(t), flag(true, c16TyOf(k)), flag(true, c16TyOf(v.MapIndex(k))))
+	case reflect.Struct:
+		comps := []string{}
+		for i := 0; i < t.NumField(); i++ {
+			if t.Field(i).PkgPath == "" {
+				comps = append(comps, flag(true, c16TyOf(v.Field(i))))
+			}
+		}
+		return c16TComp(c16TyName(t), comps...)
+	}
+	return fmt.Sprintf("(TLeaf %d)", c16TyName(t))
+}
+
+func init() {
+	for _, root := range c16GraphRootNames {
+		if c16TypeCyclic(c16GraphRoots[root], map[reflect.Type]bool{}) {
+			continue
+		}
+		for _, view := range c16GraphViews {
+			if view == "wrap" {
+				continue // reflect.StructOf creates the type on demand; not named here
+			}
+			c16ValueTy[c16GraphName(root, view)] = c16TyOf(reflect.ValueOf(c16GraphValue(root, view)))
+		}
+	}
+}
+
+// ---------------------------------------------------------------------------
+// Runners of the directed families.
+
+type c16Recorder func(kind string, k c16Cfg, ops []c16Op, steps []c16Step)
+
+func c16Wanted(only, kind string) bool { return only == "" || only == kind }
+
+var c16EventKinds = []string{"rules", "cbe-encoder", "cte-encoder"}
+var c16DocKinds = []string{"cbe-unmarshaler", "cte-unmarshaler", "cbe-decoder", "cte-decoder", "ce-decoder"}
+
+// family S.  Every first document F is followed, on the same instance, by every later document:
+// F L1 F L2 ... (only the first diverging call of a history is reported).
+func c16RunStateFamily(c *Ctx, only string, record c16Recorder) {
+	firsts := c16StateFirsts(c.Thorough(), 3, c.Rng.Intn)
+	laters := c16StateLaters()
+	// under small limits: the counter documents, and the state documents that stop early or end "properly"
+	cfirsts := c16CounterFirsts()
+	for _, f := range firsts {
+		if strings.HasSuffix(f.Tag, "/none/abort") || strings.HasSuffix(f.Tag, "/none/closed") {
+			cfirsts = append(cfirsts, f)
+		}
+	}
+	claters := append(c16CounterLaters(), laters...)
+	fams := []struct {
+		cfg            c16Cfg
+		firsts, laters []c16Named
+	}{{c16Cfg{}, firsts, laters}, {c16SmallLimits, cfirsts, claters}}
+
+	c16FreshCache = map[string]string{}
+	defer func() { c16FreshCache = nil }()
+	for fi, fam := range fams {
+		for i, f := range fam.firsts {
+			tag := "directed: failed document leaving state [" + f.Tag + "] then documents sensitive to it"
+			// event-driven instances
+			evLaters := make([]c16Op, len(fam.laters))
+			for j, l := range fam.laters {
+				evLaters[j] = c16Op{Evs: l.Evs}
+			}
+			ops := c16Interleave(c16Op{Evs: f.Evs}, evLaters)
+			for _, kind := range c16EventKinds {
+				if !c16Wanted(only, kind) {
+					continue
+				}
+				record(kind, fam.cfg, ops, c16Check(c, kind, fam.cfg, ops, tag))
+			}
+			if c16Wanted(only, "rules") && (c.Thorough() || strings.Contains(f.Tag, "/none/") || i%3 == fi) {
+				// the model is given the history in pieces of 4 first/later pairs (same reused validator per piece)
+				for at := 0; at < len(ops); at += 8 {
+					end := at + 8
+					if end > len(ops) {
+						end = len(ops)
+					}
+					if c.Thorough() || (at/8+i)%4 == 0 {
+						c16CaseRules(c, fam.cfg, ops[at:end])
+					}
+				}
+			}
+			// documents: what the stream encodes to, given to decoders and unmarshalers
+			for _, kind := range c16DocKinds {
+				if !c16Wanted(only, kind) {
+					continue
+				}
+				formats := []string{c16DocFormat(kind)}
+				if kind == "ce-decoder" {
+					formats = []string{"cbe", "cte"}
+				}
+				for _, format := range formats {
+					first := c16Op{Doc: c16DocOf(format, f.Evs), Val: "nil"}
+					if len(first.Doc) == 0 {
+						continue
+					}
+					docLaters := make([]c16Op, 0, len(fam.laters))
+					for _, l := range fam.laters {
+						if d := c16DocOf(format, l.Evs); len(d) > 0 {
+							docLaters = append(docLaters, c16Op{Doc: d, Val: "nil"})
+						}
+					}
+					dops := c16Interleave(first, docLaters)
+					record(kind, fam.cfg, dops, c16Check(c, kind, fam.cfg, dops, tag+" ("+format+" documents)"))
+				}
+			}
+		}
+	}
+}
+
+// family B: byte counters and size limits.  First documents that are abandoned at EVERY byte
+// position of a reference document (and documents with trailing bytes, documents over the limit),
+// then valid documents of exactly limit-1, limit, limit+1 bytes and a small one, for limits around
+// the sizes involved.
+func c16RunSizeFamily(c *Ctx, only string, record c16Recorder) {
+	u8 := int(events.ArrayTypeUint8)
+	refDocs := map[string][][]byte{
+		"cbe": {
+			c16DocOf("cbe", c16Evs("bd v:0 l pi:1000000 sa:1:616263 m pi:1 pi:2 e e ed")),
+			c16DocOf("cbe", c16Evs(fmt.Sprintf("bd v:0 l ab:%d ac:2:true ad:0102 ac:1:false ad:03 i:-70000 e ed", u8))),
+		},
+		"cte": {
+			c16DocOf("cte", c16Evs("bd v:0 l pi:1000000 sa:1:616263 m pi:1 pi:2 e e ed")),
+			[]byte("c0 [@u8x[01 02 03] -70000]"),
+		},
+	}
+	kindsOf := map[string][]string{"cbe": {"cbe-decoder", "ce-decoder", "cbe-unmarshaler"}, "cte": {"cte-decoder", "ce-decoder", "cte-unmarshaler"}}
+	c16FreshCache = map[string]string{}
+	defer func() { c16FreshCache = nil }()
+	n := 0
+	for _, format := range []string{"cbe", "cte"} {
+		for _, D := range refDocs[format] {
+			firsts := []c16Named{}
+			docs := [][]byte{}
+			for p := 1; p < len(D); p++ {
+				firsts = append(firsts, c16Named{Tag: fmt.Sprintf("cut at byte %d of %d", p, len(D))})
+				docs = append(docs, cp(D[:p]))
+			}
+			firsts = append(firsts, c16Named{Tag: "trailing byte"}, c16Named{Tag: "unresolved reference"}, c16Named{Tag: "too many container ends"})
+			docs = append(docs, append(cp(D), D[len(D)-1]), c16DocOf(format, c16Evs("bd v:0 l ref:61 pi:1 e ed")), c16DocOf(format, c16Evs("bd v:0 l e e")))
+			for _, lim := range []int{8, 13, 20, len(D) - 1, len(D), len(D) + 1} {
+				laters := []c16Op{}
+				for _, sz := range []int{lim, lim - 1, lim + 1, 6} {
+					laters = append(laters, c16Op{Doc: c16SizedDoc(format, sz), Val: "nil"})
+				}
+				k := c16Cfg{MaxDoc: uint64(lim)}
+				fs := append([]c16Named{}, firsts...)
+				ds := append([][]byte{}, docs...)
+				fs = append(fs, c16Named{Tag: "over the limit by one"}, c16Named{Tag: "twice the limit"})
+				ds = append(ds, c16SizedDoc(format, lim+1), c16SizedDoc(format, 2*lim))
+				for i, f := range fs {
+					ops := c16Interleave(c16Op{Doc: ds[i], Val: "nil"}, laters)
+					tag := fmt.Sprintf("directed: abandoned %s document [%s] then documents around the size limit %d", format, f.Tag, lim)
+					for _, kind := range kindsOf[format] {
+						if c16Wanted(only, kind) {
+							record(kind, k, ops, c16Check(c, kind, k, ops, tag))
+						}
+					}
+					n++
+					if format == "cbe" && (only == "" || strings.HasPrefix(only, "cbe-")) && (c.Thorough() || n%6 == 0) {
+						hd := [][]byte{}
+						for _, o := range ops {
+							hd = append(hd, o.Doc)
+						}
+						c16CaseReader(c, uint64(lim), hd, n%12 == 0)
+					}
+				}
+			}
+		}
+	}
+}
+
+// family G: type graphs.
+func c16RunGraphFamily(c *Ctx, only string, record c16Recorder) {
+	// marshalers: every ordered pair of core views of every root, then a supported value
+	for _, kind := range []string{"cbe-marshaler", "cte-marshaler"} {
+		if !c16Wanted(only, kind) {
+			continue
+		}
+		run := func(names []string, tag string) {
+			ops := []c16Op{}
+			for _, v := range names {
+				ops = append(ops, c16Op{Val: v})
+			}
+			steps := c16Check(c, kind, c16Cfg{}, ops, tag)
+			record(kind, c16Cfg{}, ops, steps)
+			c16CaseMarshalCache(c, kind, ops, steps)
+			c16CaseGraphCache(c, kind, ops, steps)
+		}
+		for _, root := range c16GraphRootNames {
+			for _, v1 := range c16GraphCoreViews {
+				for _, v2 := range c16GraphCoreViews {
+					run([]string{c16GraphName(root, v1), c16GraphName(root, v2), "S2"}, "directed: two views of one type graph")
+				}
+			}
+		}
+		for i := 0; i < c.Pick(150, 3000); i++ {
+			root := c16GraphRootNames[c.Rng.Intn(len(c16GraphRootNames))]
+			names := []string{}
+			for j, n := 0, 2+c.Rng.Intn(3); j < n; j++ {
+				r := root
+				if c.Rng.Intn(3) == 0 {
+					r = c16GraphRootNames[c.Rng.Intn(len(c16GraphRootNames))]
+				}
+				if c.Rng.Intn(6) == 0 {
+					names = append(names, c16Pick(c, c16GoodValues, c16BadValues[:16], 30))
+				} else {
+					names = append(names, c16GraphName(r, c16GraphViews[c.Rng.Intn(len(c16GraphViews))]))
+				}
+			}
+			run(names, "sampled views of type graphs")
+		}
+	}
+
+	// unmarshalers: the views as templates, with documents of the view's shape
+	bodies := []string{"{}", "{\"V\"=1 \"Next\"={\"V\"=2}}", "{\"Bad\"=1}"}
+	shape := func(view, body string) string {
+		switch view {
+		case "sliceptr", "sliceval", "emptyslice", "ifacelist":
+			return "c0 [" + body + "]"
+		case "map":
+			return "c0 {\"k\"=" + body + "}"
+		case "wrap":
+			return "c0 {\"P\"=" + body + "}"
+		}
+		return "c0 " + body
+	}
+	toCBE := func(cte string) []byte {
+		var buf bytes.Buffer
+		enc := ce.NewCBEEncoder(configuration.New())
+		enc.PrepareToEncode(&buf)
+		if err := ce.NewCTEDecoder(configuration.New()).DecodeDocument([]byte(cte), enc); err != nil {
+			panic("c16: harness document does not convert: " + cte + ": " + err.Error())
+		}
+		return cp(buf.Bytes())
+	}
+	tmplViews := []string{"val0", "ptr0", "sliceptr", "map"}
+	for _, kind := range []string{"cbe-unmarshaler", "cte-unmarshaler"} {
+		if !c16Wanted(only, kind) {
+			continue
+		}
+		doc := func(view, body string) []byte {
+			if kind == "cbe-unmarshaler" {
+				return toCBE(shape(view, body))
+			}
+			return []byte(shape(view, body))
+		}
+		control := c16Op{Val: "ints", Doc: c16Matched(kind[:3], "ints")}
+		for _, root := range c16GraphRootNames {
+			for _, v1 := range tmplViews {
+				for _, v2 := range tmplViews {
+					for bi, body := range bodies {
+						if !c.Thorough() && bi == 2 && v1 != "val0" {
+							continue
+						}
+						ops := []c16Op{{Val: c16GraphName(root, v1), Doc: doc(v1, body)}, {Val: c16GraphName(root, v2), Doc: doc(v2, body)}, control}
+						record(kind, c16Cfg{}, ops, c16Check(c, kind, c16Cfg{}, ops, "directed: two views of one type graph as templates"))
+					}
+				}
+			}
+		}
+		for i := 0; i < c.Pick(100, 2000); i++ {
+			ops := []c16Op{}
+			for j, n := 0, 2+c.Rng.Intn(3); j < n; j++ {
+				root := c16GraphRootNames[c.Rng.Intn(len(c16GraphRootNames))]
+				view := c16GraphViews[c.Rng.Intn(len(c16GraphViews))]
+				dv := view
+				if c.Rng.Intn(5) == 0 {
+					dv = c16GraphViews[c.Rng.Intn(len(c16GraphViews))] // a document that does not fit the template
+				}
+				ops = append(ops, c16Op{Val: c16GraphName(root, view), Doc: doc(dv, bodies[c.Rng.Intn(len(bodies))])})
+			}
+			ops = append(ops, control)
+			record(kind, c16Cfg{}, ops, c16Check(c, kind, c16Cfg{}, ops, "sampled views of type graphs as templates"))
+		}
+	}
+}
+
+// (f) type caches over type GRAPHS (CE.Model.Reuse section 5c): the table of all types a history
+// touches (by reflection; cycles allowed) and, per operation, the value as the model's [vtree].
+type c16GraphModel struct {
+	nodes      map[int]string
+	order      []int
+	nonUniform bool
+}
+
+func (m *c16GraphModel) addType(t reflect.Type) int {
+	id := c16TyName(t)
+	if _, ok := m.nodes[id]; ok {
+		return id
+	}
+	m.nodes[id] = "GLeaf" // entered before the components: the graph may be cyclic
+	m.order = append(m.order, id)
+	comps := func(ts ...reflect.Type) string {
+		ids := make([]string, len(ts))
+		for i, u := range ts {
+			ids[i] = cNi(m.addType(u))
+		}
+		return cApp("GComp", cList(ids))
+	}
+	switch t.Kind() {
+	case reflect.Chan, reflect.Func, reflect.Complex64, reflect.Complex128, reflect.UnsafePointer, reflect.Uintptr:
+		m.nodes[id] = "GBad"
+	case reflect.Interface:
+		m.nodes[id] = "GDyn"
+	case reflect.Ptr, reflect.Slice, reflect.Array:
+		m.nodes[id] = comps(t.Elem())
+	case reflect.Map:
+		m.nodes[id] = comps(t.Key(), t.Elem())
+	case reflect.Struct:
+		fs := []reflect.Type{}
+		for i := 0; i < t.NumField(); i++ {
+			if t.Field(i).PkgPath == "" {
+				fs = append(fs, t.Field(i).Type)
+			}
+		}
+		m.nodes[id] = comps(fs...)
+	}
+	return id
+}
+
+func (m *c16GraphModel) value(v reflect.Value) string {
+	some := func(s string) string { return cApp("Some", s) }
+	vt := func(kids ...string) string { return cApp("VT", cList(kids)) }
+	switch v.Kind() {
+	case reflect.Interface:
+		if v.IsNil() {
+			return "VNil"
+		}
+		return cApp("VDyn", cNi(m.addType(v.Elem().Type())), m.value(v.Elem()))
+	case reflect.Ptr:
+		if v.IsNil() {
+			return vt("None")
+		}
+		return vt(some(m.value(v.Elem())))
+	case reflect.Slice, reflect.Array:
+		if v.Len() == 0 {
+			return vt("None")
+		}
+		if v.Len() > 1 && v.Type().Elem().Kind() == reflect.Interface {
+			m.nonUniform = true // one component, several different contents: not expressible
+		}
+		return vt(some(m.value(v.Index(0)))) // the values of the graph family are uniform
+	case reflect.Map:
+		if v.Len() == 0 {
+			return vt("None", "None")
+		}
+		k := v.MapKeys()[0]
+		return vt(some(m.value(k)), some(m.value(v.MapIndex(k))))
+	case reflect.Struct:
+		// Iterator.DefaultFieldOmitBehavior = OmitFieldEmpty: a nil pointer / interface, a nil or empty
+		// slice / map, an empty array / string is not handed to the field's iterator at all
+		kids := []string{}
+		for i := 0; i < v.NumField(); i++ {
+			if v.Type().Field(i).PkgPath != "" {
+				continue
+			}
+			f := v.Field(i)
+			empty := false
+			switch f.Kind() {
+			case reflect.Interface, reflect.Ptr:
+				empty = f.IsNil()
+			case reflect.Map, reflect.Slice, reflect.Array, reflect.String:
+				empty = f.Len() == 0
+			}
+			if empty {
+				kids = append(kids, "None")
+			} else {
+				kids = append(kids, some(m.value(f)))
+			}
+		}
+		return vt(kids...)
+	}
+	return vt()
+}
+
+func (c *Ctx) c16GraphCases() *caseFile {
+	cf := c.Cases("reuse_graph", "CE.Model.Reuse", "reuse_case", "reuse_case_ok")
+	cf.perFile = 300
+	return cf
+}
+
+func c16CaseGraphCache(c *Ctx, kind string, ops []c16Op, steps []c16Step) {
+	m := &c16GraphModel{nodes: map[int]string{}}
+	terms, seen := []string{}, []string{}
+	for i, st := range steps {
+		v := reflect.ValueOf(c16Values[ops[i].Val]())
+		if !v.IsValid() {
+			return // nil interface: no type
+		}
+		terms = append(terms, cPair(cNi(m.addType(v.Type())), m.value(v)))
+		seen = append(seen, c16ResTerm(st.Reused))
+	}
+	if m.nonUniform {
+		return
+	}
+	tb := make([]string, len(m.order))
+	for i, id := range m.order {
+		tb[i] = cPair(cNi(id), m.nodes[id])
+	}
+	c.c16GraphCases().Add(cApp("CacheGraphHist", cList(tb), cList(terms), cList(seen)), kind+" type graph :: "+c16HistoryText(kind, ops[:len(steps)]))
 }
